@@ -838,14 +838,10 @@ func (w *world) start(spec incSpec) *incarnation {
 			return inc
 		}
 		attachSem <- struct{}{}
+		warm(inc.srcObj)
 		both(func() { mainCtor(rv) }, competitor)
 		<-attachSem
 		inc.attach = rv.obs(w.sc.AttachCtor + ":" + w.sc.Attach + ":" + w.sc.SrcKey)
-		if os.Getenv("C19_ATTACH_DEBUG") != "" {
-			t := time.Now()
-			blobserver.GetHub(inc.srcObj)
-			fmt.Printf("ATTACHTIME %s lookup=%v left=%d,%d ret=%d,%d\n", w.sc.ID, time.Since(t), rv.left[0].Load(), rv.left[1].Load(), rv.ret[0].Load(), rv.ret[1].Load())
-		}
 	} else {
 		done := make(chan struct{})
 		go func() { mainCtor(nil); close(done) }()
